@@ -334,9 +334,78 @@ func TestVerifC15(t *testing.T) {
 				}
 			}
 		}
+		// the same, with the fault while a result set is being read: the connection to the primary (or the cache file)
+		// gives out before row n of a SELECT of the synchronisation is fetched, n = 1 .. one past the last row
+		for _, label := range []string{pl, cl} {
+			restore()
+			var rmu sync.Mutex
+			fetched := map[string]int{}
+			var order []string
+			verifSQL.SetRowFault(label, func(q string, n int) error {
+				q = verifStmtClass(q) // (the text of one of the SELECTs carries the current second)
+				rmu.Lock()
+				if _, seen := fetched[q]; !seen {
+					order = append(order, q)
+				}
+				if n > fetched[q] {
+					fetched[q] = n
+				}
+				rmu.Unlock()
+				return nil
+			})
+			if err := env.SyncCache(); err != nil {
+				rep.Inconc("clean sync (row census) failed: %v", err)
+			}
+			verifSQL.SetRowFault(label, nil)
+			where := "primary"
+			if label == cl {
+				where = "cache"
+			}
+			for _, stmt := range order {
+				for n := 1; n <= fetched[stmt]; n++ {
+					restore()
+					st, nn := stmt, n
+					fired := false
+					verifSQL.SetRowFault(label, func(q string, k int) error {
+						if verifStmtClass(q) == st && k == nn {
+							fired = true
+							return errVerifInjected
+						}
+						return nil
+					})
+					err := env.SyncCache()
+					verifSQL.SetRowFault(label, nil)
+					if !fired {
+						rep.Count("row_fault_not_reached", 1)
+						continue
+					}
+					ap, ar := c15Rows(sideC, false)
+					after := c15Canon(ap, ar)
+					outcome := "old"
+					if after == want {
+						outcome = "new"
+					} else if after != before {
+						outcome = "MIXTURE"
+					}
+					rep.Eval(fmt.Sprintf("rowfault|%s|%s|row#%d/%d|err=%v|%s", where, stmt, n, fetched[stmt], err != nil, outcome))
+					rep.Count("row_fault_injections", 1)
+					c := map[string]interface{}{"fault": "row fetch fails", "connection": where, "statement": stmt, "row": n, "rows_fetched_in_clean_sync": fetched[stmt] - 1,
+						"sync_error": fmt.Sprint(err), "shape": fmt.Sprintf("%d users + %d records", sh[0], sh[1])}
+					if outcome == "MIXTURE" {
+						c["cache_after"] = strings.Split(after, "\n")
+						rep.Violate("C15/faults/mixture/row-fetch/"+where, "a synchronisation interrupted while reading a result set left the cache neither at its previous nor at its new content", c)
+					} else if err == nil && outcome == "old" && before != want {
+						rep.Violate("C15/faults/silent-failure/row-fetch/"+where, "the synchronisation reported success but the cache was not updated", c)
+					} else {
+						rep.Sample("rowfault:"+where+":"+outcome, 1, c)
+					}
+				}
+			}
+		}
 		restore()
 		env.SyncCache()
 	}
+	rep.Floor("row_fault_injections", 5)
 	lap("3_fault_enumeration")
 	// ------------------------------------------------------------ (4) outage
 	gate := newVerifOutage()
